@@ -290,7 +290,7 @@ def run(spec, hang_ok=False):
     for h in spec.get('_hooks', ()):  # in-process only (not JSON): extra point hooks
         d.hooks.append(h)
 
-    if spec.get('prior_use'):
+    if spec.get('prior_use') and spec['prior_use'] != 'overlap':
         # the client has a history: another front-end / an earlier manager has already been used on it (boto3 builds a new manager
         # on the same client for every call), which leaves event handlers registered on the client
         try:
@@ -306,6 +306,14 @@ def run(spec, hang_ok=False):
     else:
         mgr = TransferManager(client, cfg, osutil=osu, executor_cls=exf)
     obs.manager = mgr
+    if spec.get('prior_use') == 'overlap':
+        # another manager on the same client whose life overlaps this one's: created after it, used and shut down before this
+        # one's transfers start (what several threads calling client.upload_file at once produce)
+        try:
+            _prior_use(client, 'manager', obs.tmpdir, cfg)
+        except Exception as e:  # noqa
+            w.s3.harness_errors.append(f'overlapping use of the client failed: {e!r}')
+        log.add('prior_use.end', how='overlap')
     # lockset monitors on the manager's sliding-window semaphores (the in-memory download window): their state may only be written
     # under their own lock.  They hang off private attributes, so this engages only where those are found.
     obs.locksets = []
